@@ -23,15 +23,58 @@ fn overwrite_family() -> (crate::core::Config, Vec<crate::core::Tx>, crate::core
 	(cfg, alpha, suffix)
 }
 
+/// index growth under failure: from a full index page, the commit of the 65th key is driven along one pipeline
+/// order (P F E, then each reindex batch through R F E; cleanup + reopen after any enact) and every file operation of every one of these steps (creation of the new
+/// index file, reindex batch records, DropTable, unlink of the old file) is a failure point (syscall injector: all of them; the crate's own injector, whose sites include every in-memory
+/// read of the reindex scan: the first 10 (quick) or 48 (thorough) sites of each step)
+fn growth_fault_scenario(name: &str, max_batches: usize) -> Scenario {
+	use crate::core::*;
+	use crate::props::c09::{fill_tx, page_key};
+	let mut spec = ColSpec::hash();
+	spec.uniform = true;
+	let mut cfg = Config::new(vec![spec]);
+	cfg.salt = 0;
+	let over: Tx = vec![(0, Op::Set(page_key(0x1234, 64), B::pat(8, 5064)))];
+	let all = vec![fill_tx(), over.clone()];
+	let mut s = Scenario::new(name, cfg.clone(), vec![over]);
+	s.universe = universe_of(&cfg, &all, &[]);
+	s.init = vec![Ev::Commit(fill_tx()), Ev::Drain];
+	s.max_commits = 1;
+	s.max_rejects = 0;
+	s.max_reopen = 1;
+	s.check_iter_rc = false;
+	s.faults = true;
+	s.fault_site_cap = Some(if max_batches > 2 { 48 } else { 10 });
+	// one pipeline order: commit P F E [E], then reindex batches each driven through (R F E), cleanup and reopen at
+	// the end or after any enact
+	s.filter = Some(std::sync::Arc::new(move |hist: &[Ev], ev: &Ev| {
+		let rs = hist.iter().filter(|e| matches!(e, Ev::Stage(St::R))).count();
+		match (hist.last(), ev) {
+			(None, Ev::Commit(_)) => true,
+			(Some(Ev::Commit(_)), Ev::Stage(St::P)) => true,
+			(Some(Ev::Stage(St::P)), Ev::Stage(St::F)) => true,
+			(Some(Ev::Stage(St::R)), Ev::Stage(St::F)) => true,
+			(Some(Ev::Stage(St::F)), Ev::Stage(St::E)) => true,
+			(Some(Ev::Stage(St::E)), Ev::Stage(St::E)) => true,
+			(Some(Ev::Stage(St::E)), Ev::Stage(St::R)) => rs < max_batches,
+			(Some(Ev::Stage(St::E)), Ev::Stage(St::K)) => true,
+			(Some(Ev::Stage(St::K)), Ev::Reopen) => true,
+			_ => false,
+		}
+	}));
+	s
+}
+
 pub fn scenarios(tier: &str) -> Vec<Scenario> {
 	if tier == "thorough" {
 		vec![
 			fault_scenario("faults/hash/n3", small_family(), 3, 1, false),
 			fault_scenario("faults/hash+btree/n2", kv_family(), 2, 1, false),
 			fault_scenario("faults/rc+tree/n2", rc_tree_family(), 2, 1, true),
+			growth_fault_scenario("faults/index-growth/one-pipeline-order", 12),
 		]
 	} else {
-		vec![fault_scenario("faults/hash/n2", small_family(), 2, 1, false), fault_scenario("faults/hash-overwrite/n3", overwrite_family(), 3, 0, false), fault_scenario("faults/hash+btree/n1", kv_family(), 1, 1, false), fault_scenario("faults/rc+tree/n1", rc_tree_family(), 1, 1, true)]
+		vec![fault_scenario("faults/hash/n2", small_family(), 2, 1, false), fault_scenario("faults/hash-overwrite/n3", overwrite_family(), 3, 0, false), fault_scenario("faults/hash+btree/n1", kv_family(), 1, 1, false), fault_scenario("faults/rc+tree/n1", rc_tree_family(), 1, 1, true), growth_fault_scenario("faults/index-growth/one-pipeline-order-2-batches", 2)]
 	}
 }
 
